@@ -92,6 +92,8 @@ CLASSES = {
     # label / key / file-name like: printable, no grouping, escape, comment, parameter, brackets
     'HIDDEN': minus(R('!..~', 'À..ſ', ' '), '{}\\%#[]'),
     'COMMENT': R(' ..~', 'À..ſ', '\t'),
+    # every code point except the active characters that are not in the documented table
+    'PROSE': minus([(1, 0xD7FF), (0xE000, 0x2FFFF)], '\\%#${}'),
     'ALPHA': R('a..z', 'A..Z'),
     # file-name / key like text without characters that form special sequences
     'NAME': R('a..z', 'A..Z', '0..9', 'À..Ö', 'Ø..ö', '.', '/', ':', '+', '=', ',', '!', '?'),
@@ -126,7 +128,7 @@ def split(spec):
 
 
 def make(pre, post, cls, L, optsd, oracle, ml=False, lmin=0, twin=False, node_of=None,
-         accept_exit=False, splice=True, win=None):
+         accept_exit=False, splice=True, win=None, first_ranges=None):
     """oracle(h0, doc, result_flat, diags) -> None / failure message.
     returns (prop, concrete)"""
     from vf.offrun import flatten
